@@ -2,6 +2,7 @@ package output
 
 import (
 	"bufio"
+	"bytes"
 	"fmt"
 	"io"
 	"regexp"
@@ -20,6 +21,9 @@ var ansiRegexp = regexp.MustCompile(ansi)
 type prefixedOutputDecorator struct {
 	t *task.Task
 	w *bufio.Writer
+
+	// pending holds an escape sequence cut off at the end of the last chunk
+	pending []byte
 }
 
 func newPrefixedOutputWriter(t *task.Task, w io.Writer) *prefixedOutputDecorator {
@@ -31,6 +35,18 @@ func newPrefixedOutputWriter(t *task.Task, w io.Writer) *prefixedOutputDecorator
 
 func (d *prefixedOutputDecorator) Write(p []byte) (int, error) {
 	n := len(p)
+	if len(d.pending) > 0 {
+		p = append(d.pending, p...)
+		d.pending = nil
+	}
+
+	// an escape sequence that continues in the next chunk must not be cut in two:
+	// its halves would end up on different lines and could not be stripped
+	if k := unfinishedEscape(p); k < len(p) {
+		d.pending = append([]byte(nil), p[k:]...)
+		p = p[:k]
+	}
+
 	for {
 		advance, line, err := bufio.ScanLines(p, true)
 		if err != nil {
@@ -68,6 +84,14 @@ func (d *prefixedOutputDecorator) WriteHeader() error {
 }
 
 func (d *prefixedOutputDecorator) WriteFooter() error {
+	if len(d.pending) > 0 {
+		_, err := d.w.Write(d.pending)
+		if err != nil {
+			logrus.Warning(err)
+		}
+		d.pending = nil
+	}
+
 	err := d.w.Flush()
 	if err != nil {
 		logrus.Warning(err)
@@ -75,6 +99,34 @@ func (d *prefixedOutputDecorator) WriteFooter() error {
 
 	logrus.Infof("%s finished. Duration %s", d.t.Name, d.t.Duration())
 	return nil
+}
+
+// unfinishedEscape returns the index at which a control sequence left unfinished at the end of p starts,
+// or len(p) if p does not end inside one.
+func unfinishedEscape(p []byte) int {
+	const maxSequence = 64
+
+	i := bytes.LastIndexByte(p, 0x1b)
+	if i < 0 || len(p)-i > maxSequence {
+		return len(p)
+	}
+
+	rest := p[i+1:]
+	if len(rest) == 0 {
+		return i
+	}
+
+	if rest[0] != '[' {
+		return len(p)
+	}
+
+	for _, c := range rest[1:] {
+		if c >= 0x40 && c <= 0x7e {
+			return len(p)
+		}
+	}
+
+	return i
 }
 
 type lineWriter struct {
